@@ -21,7 +21,7 @@ const (
 	maxNativeFunctionsCount  = 256
 	maxScriggoFunctionsCount = 256
 	maxFieldIndexesCount     = 256
-	maxSelectCasesCount      = 65536
+	maxSelectCasesCount      = 65535 // reflect.Select accepts 65536 cases and the VM adds one for the context
 
 	// Types.
 	maxTypesCount = 256
